@@ -53,7 +53,7 @@ struct NoValue; // defined in the generated zoo
 }
 namespace c15 {
 
-enum St { OK = 0, VALUE = 1, TYPE = 2, ETL_INVALID = 3, ETL_EXTRA = 4, HARD = 5, MEMBER_TYPE = 6 };
+enum St { OK = 0, VALUE = 1, TYPE = 2, ETL_INVALID = 3, ETL_EXTRA = 4, HARD = 5, MEMBER_TYPE = 6, VALUE_RELAXED = 7 };
 
 struct Res {
     int st{0};
@@ -196,8 +196,29 @@ C15_C1(default_initializable) C15_C1(move_constructible) C15_C1(copy_constructib
 C15_C1(semiregular) C15_C1(regular) C15_C1(equality_comparable) C15_C1(swappable)
 C15_CH(constructible_from) C15_CH(invocable) C15_CH(regular_invocable) C15_CH(predicate)
 C15_C2(same_as) C15_C2(derived_from) C15_C2(convertible_to) C15_C2(common_reference_with) C15_C2(common_with)
-C15_C2(assignable_from) C15_C3(relation) C15_C3(equivalence_relation) C15_C3(strict_weak_order)
+C15_C3(relation) C15_C3(equivalence_relation) C15_C3(strict_weak_order)
 // clang-format on
+
+// assignable_from: etl deliberately omits the common_reference_with clause (its common_reference is not implemented, known
+// finding).  The probe also evaluates std's definition WITHOUT that clause, so that with the finding excluded the rest
+// of the concept (lvalue-reference test, assignment expression, same_as<LHS>) is still compared.
+template <class L, class R>
+constexpr auto C_assignable_from() -> Res
+{
+    Res r;
+    r.ev         = etl::assignable_from<L, R> ? 1 : 0;
+    r.sv         = std::assignable_from<L, R> ? 1 : 0;
+    bool relaxed = false;
+    if constexpr (std::is_lvalue_reference_v<L>) {
+        relaxed = requires(L l, R&& rr) {
+            { l = std::forward<R>(rr) } -> std::same_as<L>;
+        };
+    }
+    r.ev2 = r.ev;
+    r.sv2 = relaxed ? 1 : 0;
+    r.st  = r.ev == r.sv ? OK : (r.ev == r.sv2 ? VALUE_RELAXED : VALUE);
+    return r;
+}
 
 // etl has no unwrap_reference_t alias: only ::type is compared
 template <class T>
@@ -612,6 +633,9 @@ inline auto detail(char const* name, Res const& r) -> std::string
         }
         return d;
     }
+    case VALUE_RELAXED:
+        return "etl::" + n + " = " + std::to_string(r.ev) + ", std::" + n + " = " + std::to_string(r.sv)
+             + " (etl agrees with std's definition minus the common_reference_with clause)";
     case TYPE: return "etl::" + n + " is '" + sv(r.et) + "', std::" + n + " is '" + sv(r.stt) + "' (or the _t alias / ::type differs)";
     case ETL_INVALID:
         return "etl::" + n + " has no usable member (substitution failure on ::value / ::type / _v) although std::" + n + " is valid";
@@ -626,12 +650,19 @@ inline auto ill_detail(char const* name) -> std::string
     return "etl::" + n + " is ill-formed (hard error, breaks the translation unit) although std::" + n + " is valid";
 }
 
-// exclusion tags are hierarchical: "is_empty.final_class" excludes every obligation whose tag is that or starts with it + "."
-inline auto excluded_by(char const* tag) -> std::string const*
+// An obligation carries "shape-tag|base-tag", e.g. "swappable.lref.adl_swap_class|swappable@adl_swap_class".
+// An exclusion tag excludes the obligation if it equals one of the two or is a '.'-prefix of one of them
+// ("is_empty.final_class" also excludes "is_empty.final_class.cv"; "numeric_limits.wchar_t" excludes every member).
+inline auto excluded_by(std::string_view tags) -> std::string const*
 {
-    std::string_view t = tag;
-    for (auto const& e : vf::ctx().exclude) {
-        if (t == e || (t.size() > e.size() && t.substr(0, e.size()) == e && t[e.size()] == '.')) { return &e; }
+    while (!tags.empty()) {
+        auto bar           = tags.find('|');
+        std::string_view t = tags.substr(0, bar);
+        for (auto const& e : vf::ctx().exclude) {
+            if (t == e || (t.size() > e.size() && t.substr(0, e.size()) == e && t[e.size()] == '.')) { return &e; }
+        }
+        if (bar == std::string_view::npos) { break; }
+        tags.remove_prefix(bar + 1);
     }
     return nullptr;
 }
@@ -690,7 +721,9 @@ void vf_run(vf::Ctx& c)
             vf::mismatch(sn, k, d);
         }
     };
-    for (auto const* o = c15_table; o->name != nullptr; ++o) { one(o->name, o->tag, o->flags, o->sub, detail(o->name, o->r)); }
+    for (auto const* o = c15_table; o->name != nullptr; ++o) {
+        one(o->name, o->r.st == VALUE_RELAXED ? "assignable_from.common_reference_clause" : o->tag, o->flags, o->sub, detail(o->name, o->r));
+    }
     for (auto const* o = c15_ill; o->name != nullptr; ++o) {
         vf::count("obligations that are hard errors on the etl side");
         one(o->name, o->tag, o->flags, o->sub, ill_detail(o->name));
